@@ -789,9 +789,11 @@ impl<T> SegQueue<T> {
 }
 impl SmallAsnSet {
     #[verifier::external_body]
-    pub fn len(&self) -> usize { unimplemented!() }
+    pub fn len(&self) -> (r: usize) ensures r == self.count_spec(),
+    { unimplemented!() }
     #[verifier::external_body]
-    pub fn is_empty(&self) -> bool { unimplemented!() }
+    pub fn is_empty(&self) -> (r: bool) ensures r == (self.count_spec() == 0),
+    { unimplemented!() }
     #[verifier::external_body]
     pub fn contains(&self, asn: Asn) -> (r: bool) ensures r == self.asns().contains(asn),
     { unimplemented!() }
@@ -836,3 +838,106 @@ pub assume_specification<T> [std::option::Option::<T>::or] (_0: std::option::Opt
     where T: std::marker::Destruct,
     ensures r == (if _0 is Some { _0 } else { _1 }),
 ;
+
+// ---- more of rpki's ASN set API (SmallAsnSet, its iterators, ProviderAsns),
+// declared so that variants of the ASPA merge still reach the verifier.
+// count_spec: the number of ASNs (the sets are finite in reality).
+impl SmallAsnSet {
+    pub uninterp spec fn count_spec(&self) -> nat;
+    #[verifier::external_body]
+    pub fn iter(&self) -> (r: SmallSetIter<'_>)
+        ensures r.asns() == self.asns(), r.count_spec() == self.count_spec(),
+    { unimplemented!() }
+    #[verifier::external_body]
+    pub fn intersection<'a>(&'a self, other: &'a SmallAsnSet) -> (r: SmallSetUnion<'a>)
+        ensures r.asns() == self.asns().intersect(other.asns()),
+    { unimplemented!() }
+    #[verifier::external_body]
+    pub fn difference<'a>(&'a self, other: &'a SmallAsnSet) -> (r: SmallSetUnion<'a>)
+        ensures r.asns() == self.asns().difference(other.asns()),
+    { unimplemented!() }
+}
+#[verifier::external_body] pub struct SmallSetIter<'a> { _p: &'a SmallAsnSet }
+impl<'a> Iterator for SmallSetIter<'a> {
+    type Item = Asn;
+    #[verifier::external_body]
+    fn next(&mut self) -> Option<Asn> { unimplemented!() }
+}
+impl<'a> SmallSetIter<'a> {
+    pub uninterp spec fn asns(&self) -> ISet<Asn>;
+    pub uninterp spec fn count_spec(&self) -> nat;
+}
+// the set iterators (union, intersection, difference) truncated to their first n items:
+// a subset of at most n ASNs, everything if there were no more than n
+#[verifier::external_body] pub struct SmallSetTake<'a> { _p: &'a SmallAsnSet }
+impl<'a> SmallSetTake<'a> {
+    pub uninterp spec fn asns(&self) -> ISet<Asn>;
+    pub uninterp spec fn count_spec(&self) -> nat;
+    #[verifier::external_body]
+    pub fn collect(self) -> (r: SmallAsnSet)
+        ensures r.asns() == self.asns(), r.count_spec() == self.count_spec(),
+    { unimplemented!() }
+}
+impl<'a> SmallSetUnion<'a> {
+    pub uninterp spec fn count_spec(&self) -> nat;
+    // stands for Iterator::take on the set iterator
+    #[verifier::external_body]
+    pub fn take(self, n: usize) -> (r: SmallSetTake<'a>)
+        ensures
+            r.asns().subset_of(self.asns()), r.count_spec() <= n, r.count_spec() <= self.count_spec(),
+            self.count_spec() <= n ==> r.asns() == self.asns() && r.count_spec() == self.count_spec(),
+    { unimplemented!() }
+    // stands for Iterator::count
+    #[verifier::external_body]
+    pub fn count(self) -> (r: usize) ensures r == self.count_spec(),
+    { unimplemented!() }
+}
+
+// rpki::rtr::pdu::ProviderAsns: the provider set in its RTR encoding, at most MAX_COUNT ASNs
+#[verifier::external_body] pub struct ProviderAsns { _opaque: () }
+#[verifier::external_body] pub struct ProviderAsnsError { _opaque: () }
+impl ProviderAsns {
+    pub const MAX_COUNT: usize = 16380;
+    pub uninterp spec fn asns(&self) -> ISet<Asn>;
+    pub uninterp spec fn count_spec(&self) -> nat;
+    #[verifier::external_body]
+    pub fn empty() -> (r: ProviderAsns) ensures r.asns() == ISet::<Asn>::empty(), r.count_spec() == 0,
+    { unimplemented!() }
+    // ASSUMED (rpki): fails iff the iterator yields more than MAX_COUNT ASNs; otherwise the same ASNs
+    // (really `iter: impl IntoIterator<Item = Asn>`)
+    #[verifier::external_body]
+    pub fn try_from_iter(iter: SmallSetIter<'_>) -> (r: Result<ProviderAsns, ProviderAsnsError>)
+        ensures
+            r is Ok <==> iter.count_spec() <= 16380,
+            r matches Ok(p) ==> p.asns() == iter.asns() && p.count_spec() == iter.count_spec(),
+    { unimplemented!() }
+    #[verifier::external_body]
+    pub fn asn_count(&self) -> (r: u16) ensures r == self.count_spec(),
+    { unimplemented!() }
+    #[verifier::external_body]
+    pub fn len(&self) -> usize { unimplemented!() }
+    #[verifier::external_body]
+    pub fn is_empty(&self) -> (r: bool) ensures r == (self.count_spec() == 0),
+    { unimplemented!() }
+}
+// rpki::rtr::payload::Aspa (two public fields)
+pub struct Aspa { pub customer: Asn, pub providers: ProviderAsns }
+impl Aspa {
+    #[verifier::external_body]
+    pub fn new(customer: Asn, providers: ProviderAsns) -> (r: Aspa) ensures r == (Aspa { customer, providers }),
+    { unimplemented!() }
+}
+impl Default for SmallAsnSet {
+    #[verifier::external_body]
+    fn default() -> SmallAsnSet { unimplemented!() }
+}
+impl Clone for SmallAsnSet {
+    #[verifier::external_body]
+    fn clone(&self) -> (r: Self) ensures r == *self,
+    { unimplemented!() }
+}
+impl Clone for ProviderAsns {
+    #[verifier::external_body]
+    fn clone(&self) -> (r: Self) ensures r == *self,
+    { unimplemented!() }
+}
